@@ -58,8 +58,10 @@ def C01(ctx):
     E.c06_t3(sctx6, f)
     E.c06_r1(sctx6, f)
     R.c01_r1(ctx, f)
-    R.c01_r2(ctx, f)
-    R.c04_r1(ctx, f)
+    d_pipe = G.c01_r6(ctx, f)
+    R.c01_r2(soft_if(ctx, d_pipe, "C01.R6"), f)
+    d_sel = G.c11_r8(ctx, f)
+    R.c04_r1(soft_if(ctx, d_sel, "C11.R8"), f)
     R.c08_r1(ctx, f, rid="C01.R3")
     E.c02_r2(ctx, f)
     T.c03_t1(ctx, f)
@@ -117,7 +119,9 @@ def C04(ctx):
     f = ctx.facts("default")
     T.c04_t1(ctx, f)
     T.c04_t2(ctx, f)
-    R.c04_r1(ctx, f)
+    d_sel = G.c11_r8(ctx, f)
+    R.c04_r1(soft_if(ctx, d_sel, "C11.R8"), f)
+    G.c01_r6(ctx, f)
     R.c04_r2(ctx, f)
     R.c05_gate(ctx, f)
     G.prepare(ctx, f, {"blank", "format"})
@@ -182,7 +186,8 @@ def C07(ctx):
 def C08(ctx):
     f = ctx.facts("default")
     R.c08_r1(ctx, f)
-    R.c04_r1(ctx, f)
+    d_sel = G.c11_r8(ctx, f)
+    R.c04_r1(soft_if(ctx, d_sel, "C11.R8"), f)
     G.prepare(ctx, f, {"blank", "format", "masks"})
     d_masks = G.c08_r4(ctx, f)
     sctx = soft_if(ctx, d_masks, "C08.R4")
@@ -244,7 +249,10 @@ def C10(ctx):
 
 def C11(ctx):
     f = ctx.facts("default")
-    R.c11_rules(ctx, f)
+    d_sel = G.c11_r8(ctx, f)
+    # R2 (each candidate ranked by its own penalty) stays a hard rule: it carries the known finding D1
+    R.c11_rules(soft_if(ctx, d_sel, "C11.R8", only={"C11.R1", "C11.R3", "C11.R4"}), f)
+    G.c11_d1_if_missing(ctx, f)
     T.c11_t1(ctx, f)
     x("c11_r6", ctx, f)
     x("c11_r7", ctx, f)
